@@ -187,7 +187,7 @@ def gen_case(rng, stream=None):
         # a side that the duplicate removal drops (eps away from a kept boundary) and that passes exactly
         # through the centre of a cell 2*eps wide: decides whether point_inside is closed
         boxes = regions + fixed
-        if len(boxes) >= 2 and rng.random() < 0.5:
+        if len(boxes) >= 2 and rng.random() < 0.7:
             axis = rng.randrange(2)
             line = rng.choice(xs if axis == 0 else ys)
             on = [(b, s) for b in boxes for s in (axis, axis + 2) if abs(b[s] - line) <= F(1, 256)]
@@ -562,8 +562,22 @@ def nontrivial(case):
     return n + len(case["fixed"]) >= 2 or case["stream"] == "malformed"
 
 
+def run_oracle_only(ctx, out):
+    """used when the Coq development does not build: the direct oracle alone"""
+    for _ in range(600):
+        case = gen_case(ctx.rng)
+        try:
+            obs = run_impl(case)
+            why = oracle(case, obs)
+        except Exception as e:
+            obs, why = {}, f"implementation raised {type(e).__name__}: {e}"
+        out.add_case(fr.tojson(case), nontrivial(case))
+        if why:
+            out.failures.append({"key": failure_key(case, why), "why": why, "case": fr.tojson(case), "impl": fr.tojson(obs)})
+
+
 def run(ctx, out, replay=None):
-    n = 1200 if ctx.quick() else 30000
+    n = 5000 if ctx.quick() else 30000
     out.rule = ("dies with 0-8 lattice-aligned regions (blockages, identifiers, fixed rectangles through a generated netlist) "
                 "on a coarse nx x ny lattice (1..6 each, narrow columns for near-misses; patterns random / pinwheel ring with "
                 "enclosed hole / T-junction / fully covered); streams exact (dyadic), exact-eps (explicit epsilon 2^-10, sides "
